@@ -44,6 +44,15 @@ CLAIMED["C11"] = {
     "design_ref": "DESIGN.md section 3 (C11)",
 }
 
+CLAIMED["C03"] = {
+    "engine": "hist_rescale",
+    "level": "exploration",
+    "text": "History clause of C03 only. Seeded search over evaluation histories of the real TreeLikelihoodModel on synthetic trees (50..1500 taxa, caterpillar / balanced / random, JC69 / HKY, tip partials / tip states): the scheduler scales branch lengths so that per-site likelihoods move between the normal range, the sub-normal band and total underflow (scales found by search on the reference), in unbatched and batched form with rows of mixed magnitude, forces the sticky rescale flag at arbitrary points and revisits easy inputs after the switch. Every evaluation is compared (1e-8 relative) with a log-space pruning reference and with a twin model that rescaled from the start.",
+    "note": "The sweep over all tree sizes / shapes / models is an input quantifier and is only sampled as workload: that part of C03 is not decided here. Trusted: post-order triples and leaf indexing of a freshly built tree model (inputs of the reference), numpy float64 log-sum-exp, closed-form JC69/HKY.",
+    "technique": "deterministic simulation restricted to the history clause: seeded evaluation histories across the rescale switch with arithmetic underflow as the injected fault, log-space reference oracle",
+    "design_ref": "DESIGN.md section 3 (C03)",
+}
+
 NOT_APPLICABLE = {
     "C01": "pure function of (tree, branch lengths, model, alignment): no schedule, clock, fault, crash point or history for a simulator to own",
     "C02": "metamorphic relation between two encodings of the same input; no state, schedule or fault involved",
@@ -64,7 +73,6 @@ NOT_APPLICABLE = {
 
 PENDING = {
     # claimed in DESIGN.md, check not registered yet (moved to CLAIMED once it runs clean)
-    "C03": "history clause is a simulation target (DESIGN.md); check under construction, not yet registered",
 }
 
 
